@@ -31,7 +31,7 @@ AllGrids == {G2, U3, N3, U4, N4, U5, N5}
 ConfigsQuick ==
     {<<g>> : g \in AllGrids}
     \cup {<<g, h>> : g, h \in {G2, U3, N3, N4}}
-    \cup {<<U3, N3, G2>>, <<N3, U3, U3>>, <<U3, U3, U3>>}
+    \cup {<<U3, N3, G2>>, <<N3, U3, U3>>}
 ConfigsThorough ==
     {<<g>> : g \in AllGrids}
     \cup {<<g, h>> : g, h \in {G2, U3, N3, U4, N4, N5}} \cup {<<U5, U5>>}
